@@ -102,6 +102,23 @@ def add_tail(rng, c, n_nodes, resume=True):
     c["n_nodes"] = n_nodes
 
 
+def hung_pod_case(rng, stats):
+    """a node stops answering: its pod is deleted gracefully and never goes away (stuck Terminating past its grace period);
+    the controllers come to rest around it"""
+    n = rng.choice([3, 4, 5])
+    c = histgen.gen_history(rng, None, n=n, canary=False, length=0)
+    e = [o for o in c["objects"] if o["kind"] == "ExtendedDaemonSet"][0]
+    e["spec"]["strategy"]["rollingUpdate"]["maxPodSchedulerFailure"] = rng.choice([0, 1, 2])
+    ops = c["ops"]
+    ops += histgen.rollout_ops(rng, 3)
+    ops += [histgen.kubelet("hang", rng.choice([2, 3, n + 1])), K.sleep(rng.choice([31, 61, 700]))]
+    if rng.random() < 0.5:
+        ops += [histgen.edit("ExtendedDaemonSet", NS, EDS, "image:img:2")]
+    add_tail(rng, c, n, resume=False)
+    wprop.bump(stats, "a pod stuck terminating on a node that stopped answering", "yes")
+    return c
+
+
 def shrinking_cluster_case(rng, stats):
     """a manual-mode canary on a percentage of the nodes; the cluster grows (status.desired follows), then shrinks
     below the number of canary nodes that the stale status.desired resolves to; then a fair tail"""
